@@ -28,6 +28,7 @@ pub type JwkThumbprintSha256 = [u8; SHA256_LEN];
 ///
 /// [More Info](https://tools.ietf.org/html/rfc7517#section-4)
 #[derive(Clone, Debug, PartialEq, Eq, serde::Deserialize, serde::Serialize)]
+#[serde(try_from = "JwkUnchecked")]
 pub struct Jwk {
   /// Key Type.
   ///
@@ -99,6 +100,47 @@ pub struct Jwk {
   /// [More Info](https://tools.ietf.org/html/rfc7517#section-4)
   #[serde(flatten)]
   pub(super) params: JwkParams,
+}
+
+/// The deserialized form of a [`Jwk`], before the key type has been checked against the key parameters.
+#[derive(serde::Deserialize)]
+struct JwkUnchecked {
+  kty: JwkType,
+  #[serde(rename = "use")]
+  use_: Option<JwkUse>,
+  key_ops: Option<Vec<JwkOperation>>,
+  alg: Option<String>,
+  kid: Option<String>,
+  x5u: Option<Url>,
+  x5c: Option<Vec<String>>,
+  x5t: Option<String>,
+  #[serde(rename = "x5t#S256")]
+  x5t_s256: Option<String>,
+  #[serde(flatten)]
+  params: JwkParams,
+}
+
+impl TryFrom<JwkUnchecked> for Jwk {
+  type Error = Error;
+
+  fn try_from(jwk: JwkUnchecked) -> Result<Self> {
+    // The parameters are resolved from the members present; they must belong to the declared key type.
+    if jwk.kty != jwk.params.kty() {
+      return Err(Error::InvalidParam("`params` type does not match `kty`"));
+    }
+    Ok(Self {
+      kty: jwk.kty,
+      use_: jwk.use_,
+      key_ops: jwk.key_ops,
+      alg: jwk.alg,
+      kid: jwk.kid,
+      x5u: jwk.x5u,
+      x5c: jwk.x5c,
+      x5t: jwk.x5t,
+      x5t_s256: jwk.x5t_s256,
+      params: jwk.params,
+    })
+  }
 }
 
 impl Jwk {
